@@ -158,12 +158,53 @@ fn derived(c: &Value) -> Option<Value> {
     Some(ev)
 }
 
+/// The identifier of a name in a role must not depend on where else the spelling is used: for the roles whose names start with
+/// a lower-case letter (component, alternative, value) the case is compiled a second time in a module that uses the same
+/// spelling in all three roles at once; the identifier of the case's own role is reported and judged like the first one.
+fn crowded(c: &Value) -> Option<Value> {
+    let role = c["role"].as_str().unwrap();
+    if !matches!(role, "component" | "alternative" | "value") {
+        return None;
+    }
+    let name = asn_name(c);
+    let text = format!("Idm DEFINITIONS AUTOMATIC TAGS ::= BEGIN\n{name} INTEGER ::= 5\nTx ::= SEQUENCE {{ {name} BOOLEAN }}\nTy ::= CHOICE {{ {name} BOOLEAN }}\nEND\n");
+    let (o, _) = run::compile_rasn1(&text);
+    if o.status != "ok" || !o.warnings.is_empty() {
+        return None; // the single-role event has reported what there is to report
+    }
+    let krate = rsproj::project(&o.generated);
+    if !krate.parsed_ok {
+        return None;
+    }
+    let module = krate.modules.iter().find(|m| !m.name.is_empty())?;
+    let found: Option<(String, Option<String>)> = match role {
+        "component" => module.items.iter().find(|i| i.name == "Tx").and_then(|i| i.fields.first()).map(|f| (f.name.clone(), f.attrs.nv("identifier"))),
+        "alternative" => module.items.iter().find(|i| i.name == "Ty").and_then(|i| i.variants.first()).map(|v| (v.name.clone(), v.attrs.nv("identifier"))),
+        _ => module.items.iter().find(|i| matches!(i.kind.as_str(), "const" | "static")).map(|i| (i.name.clone(), None)),
+    };
+    let (rust, annot) = found?;
+    let mut ev = c.clone();
+    ev["ev"] = json!("ident");
+    ev["crowded"] = json!(true);
+    ev["asn"] = json!(name);
+    ev["asn_chars"] = json!(chars(&name));
+    ev["src"] = json!(text);
+    ev["status"] = json!("ok");
+    ev["detail"] = json!("");
+    ev["parsed_ok"] = json!(true);
+    ev["rust_chars"] = json!(chars(&rust));
+    ev["rust"] = json!(rust);
+    ev["has_annot"] = json!(annot.is_some());
+    ev["annot"] = json!(annot.unwrap_or_default());
+    Some(ev)
+}
+
 /// vharness c16 --cases <ndjson> --trace <ndjson>
 pub fn drive(args: &[String]) -> i32 {
     let cases = util::read_ndjson(util::arg(args, "--cases").expect("--cases"));
     let events = util::par_chunks(&cases, 64, util::threads(), |_, chunk| {
         run::install_panic_hook();
-        chunk.iter().flat_map(|c| std::iter::once(one(c)).chain(derived(c))).collect()
+        chunk.iter().flat_map(|c| std::iter::once(one(c)).chain(derived(c)).chain(crowded(c))).collect()
     });
     util::write_ndjson(util::arg(args, "--trace").expect("--trace"), &events);
     eprintln!("c16: {} cases, {} events", cases.len(), events.len());
